@@ -50,8 +50,9 @@ def g_env(cfg, dialect, truthy, cols, scalar) -> str:
     from implgraph import g_provider
     sc = "; ".join("(%s, [%s])" % (coq_string(k), "; ".join(
         "(%s, %s)" % (coq_string(c), "None" if q is None else "Some " + coq_string(q)) for c, q in v)) for k, v in scalar.items())
-    return ("(mk_env %s %s \"\" (%s) [%s])"
-            % (coq_string(dialect), coq_string(cfg), g_provider(truthy, cols), sc))
+    # after fix F5 the default schema of Table() is resolved per call: import-time value = call-time value
+    return ("(mk_env %s %s %s (%s) [%s])"
+            % (coq_string(dialect), coq_string(cfg), coq_string(cfg), g_provider(truthy, cols), sc))
 
 
 def analyse(rec: dict) -> list[dict]:
